@@ -6,6 +6,13 @@ From PV Require Import Common.Util Gen.LedgerConsts Life.Ledger Life.LedgerCheck
 From PV Require Import Proofs.LifeLedger Proofs.LifeLedgerSys Proofs.LifeLedgerRuns Proofs.LifeLedgerOnce.
 Local Open Scope N_scope.
 
+(* Scope added after the seeded changes C09-1 and C09-3: a service name may be declared by several functions and
+   contexts (reference count, refusal of a registration from another context, handler reached by a call), and
+   DecoratorManager.start of the new subsystem is NOT atomic: it starts the decorators in front of @service, registers
+   the service, is suspended in `await State.get_service_params()` ([w_starting]) and continues with [OResume] - every
+   operation (stop, reload, unload, occurrences) may come in between.  All theorems below quantify over these
+   interleavings. *)
+
 (* "Deactivation releases every subscription, bus listener, timer and service registration it created":
    for every ledger, every trigger (any set of watched names, in ANY iteration order - the order is the list order of
    [u_state]), starting it (task creation + subscription prologue) and stopping it (TrigInfo.stop + the reaper's cancel
@@ -78,7 +85,7 @@ Theorem C09_refuted_D16 :
   (leg_cycle cfg_only16 (w_unit [w_cd; w_ab; w_ab_old]) ledger0 = ledger0 /\
    leg_cycle cfg_only16 (w_unit [w_ab; w_cd; w_ab_old]) ledger0 = ledger0) /\
   w_led (unload cfg_only16 (run_ops cfg_only16
-     [OCtxAuto 0 false; ODefine 0 false (wit_spec [w_ab; w_ab_old; w_cd]); OCtxStart 0; OSettle; ODropped 1; OSettle] world0)) <> ledger0.
+     [OCtxAuto 0 false; ODefine 0 false (wit_spec [w_ab; w_ab_old; w_cd]); OCtxStart 0 []; OSettle; ODropped 1; OSettle] world0)) <> ledger0.
 Proof. exact (conj refuted_D16_cycle (conj D16_order_dependent refuted_D16_baseline)). Qed.
 Print Assumptions C09_refuted_D16.
 
@@ -88,6 +95,26 @@ Theorem C09_refuted_D90 :
   existsb (fun r => N.eqb (r_gen r) 1 && N.eqb (rkind_code (r_kind r)) 0) (w_log (run_ops cfg_off ops_D90 world0)) = false.
 Proof. exact refuted_D90. Qed.
 Print Assumptions C09_refuted_D90.
+
+(* D21: a service name shared by two live functions of one context: after the newer one is dropped a call still runs it *)
+Theorem C09_refuted_D21 :
+  map r_gen (w_log (run_ops cfg_only21 ops_D21 world0)) = [2] /\ map r_gen (w_log (run_ops cfg_off ops_D21 world0)) = [1].
+Proof. exact refuted_D21. Qed.
+Print Assumptions C09_refuted_D21.
+
+(* the conformant model on the scenarios of the seeded changes: (C09-1) a registration refused for another context
+   leaves the owner's count untouched, so stopping the owner's context removes the service and nothing runs any more,
+   in both subsystems; (C09-3) a context stopped while start() is suspended behind the service registration: for every
+   position of @service among the triggers the ledger is empty afterwards and later occurrences run nothing *)
+Theorem C09_examples_refused_and_overtaken :
+  (forall newsys, let W := run_ops cfg_off (ops_refused newsys) world0 in
+     w_led W = ledger0 /\ svc_count W 7 = 0%nat /\
+     filter (fun r => N.eqb (rkind_code (r_kind r)) 5) (w_log W) = [{| r_gen := 1; r_kind := RService; r_unit := 1 |}]) /\
+  map (fun pos => let W := run_ops cfg_off (ops_overtake pos) world0 in
+                  (ledger_eqb_empty (w_led W), map (fun r => rkind_code (r_kind r)) (w_log W))) [0%nat; 1%nat; 2%nat; 3%nat] =
+  [(true, []); (true, []); (true, [1]); (true, [3; 1; 4])].
+Proof. exact (conj ex_refused ex_overtake). Qed.
+Print Assumptions C09_examples_refused_and_overtaken.
 
 (* D91 (legacy): a trigger stopped before its task ran subscribes afterwards; the entries survive even unload *)
 Theorem C09_refuted_D91 :
